@@ -5,11 +5,13 @@ import Mps.Handler
 namespace Mps.Handler
 
 /-- the lifecycle-relevant part of the state is unchanged -/
-def SameLife (a b : State) : Prop := a.err = b.err ∧ a.result = b.result ∧ a.closes = b.closes ∧ a.sc = b.sc
+def SameLife (a b : State) : Prop :=
+  a.err = b.err ∧ a.result = b.result ∧ a.closes = b.closes ∧ a.sc = b.sc ∧ a.out = b.out
 
-theorem SameLife.refl (a : State) : SameLife a a := ⟨rfl, rfl, rfl, rfl⟩
+theorem SameLife.refl (a : State) : SameLife a a := ⟨rfl, rfl, rfl, rfl, rfl⟩
 theorem SameLife.trans {a b c : State} (h1 : SameLife a b) (h2 : SameLife b c) : SameLife a c :=
-  ⟨h1.1.trans h2.1, h1.2.1.trans h2.2.1, h1.2.2.1.trans h2.2.2.1, h1.2.2.2.trans h2.2.2.2⟩
+  ⟨h1.1.trans h2.1, h1.2.1.trans h2.2.1, h1.2.2.1.trans h2.2.2.1, h1.2.2.2.1.trans h2.2.2.2.1,
+   h1.2.2.2.2.trans h2.2.2.2.2⟩
 
 theorem store_sameLife (s : State) (m : Msg) : SameLife s (store s m) := by
   unfold store
@@ -131,13 +133,20 @@ theorem foldStore_sameLife (ems : List Msg) (s : State) :
     · exact (store_sameLife s m).trans (ih _)
     · exact ih _
 
-theorem sendAll_sameLife (s : State) (ems : List Msg) : SameLife s (sendAll s ems) := by
+/-- `sendAll` appends to `out` and changes nothing else of the lifecycle -/
+theorem sendAll_frame (s : State) (ems : List Msg) :
+    (sendAll s ems).err = s.err ∧ (sendAll s ems).result = s.result ∧ (sendAll s ems).closes = s.closes ∧
+    (sendAll s ems).sc = s.sc ∧ (sendAll s ems).out = s.out ++ ems := by
   unfold sendAll
   have := foldStore_sameLife ems s
-  exact ⟨this.1, this.2.1, this.2.2.1, this.2.2.2⟩
+  exact ⟨this.1.symm, this.2.1.symm, this.2.2.1.symm, this.2.2.2.1.symm, by simp [this.2.2.2.2]⟩
 
-theorem enter_sameLife (s : State) (i : Nat) (nx : RoundSpec) : SameLife s (enter s i nx) := ⟨rfl, rfl, rfl, rfl⟩
-theorem enter0_sameLife (s : State) : SameLife s (enter0 s) := ⟨rfl, rfl, rfl, rfl⟩
+theorem sendAll_live (s : State) (ems : List Msg) (l : Live s) : Live (sendAll s ems) := by
+  have f := sendAll_frame s ems
+  exact ⟨f.2.2.1 ▸ l.1, f.1 ▸ l.2.1, f.2.1 ▸ l.2.2⟩
+
+theorem enter_sameLife (s : State) (i : Nat) (nx : RoundSpec) : SameLife s (enter s i nx) := ⟨rfl, rfl, rfl, rfl, rfl⟩
+theorem enter0_sameLife (s : State) : SameLife s (enter0 s) := ⟨rfl, rfl, rfl, rfl, rfl⟩
 
 /-- one pass of `finalize` from a running state: it either returns in a good state, or continues running -/
 def Step.ok : Step → Prop
@@ -163,7 +172,7 @@ theorem finalizeStep_good (H : Bytes → Bytes) (s : State) (l : Live s) : (fina
           obtain ⟨h1, h2, h3⟩ := l1
           simp [abort, Done, enter0, h1, h2]
       · next i nx _ =>
-        have l3 := l1.of_sameLife (sendAll_sameLife (fillBh H s) (emitFor (fillBh H s) nx))
+        have l3 := sendAll_live (fillBh H s) (emitFor (fillBh H s) nx) l1
         split
         · exact Or.inl l3
         · have l4 := l3.of_sameLife (enter_sameLife _ i nx)
@@ -228,5 +237,172 @@ theorem accept_terminal (H : Bytes → Bytes) (s : State) (m : Msg) (h : termina
   simp [accept, h]
 
 theorem stop_terminal (s : State) (h : terminal s = true) : stop s = s := by simp [stop, h]
+
+/-! ### every message a handler emits carries its own session tag, protocol id and sender -/
+
+def HeaderOk (sc : Script) (m : Msg) : Prop := m.ssid = some sc.ssid ∧ m.proto = sc.proto ∧ m.frm = sc.self
+
+def OutOk (s : State) : Prop := ∀ m ∈ s.out, HeaderOk s.sc m
+
+theorem OutOk.of_sameLife {s s' : State} (h : SameLife s s') (o : OutOk s) : OutOk s' := by
+  intro m hm
+  rw [← h.2.2.2.2] at hm
+  rw [← h.2.2.2.1]
+  exact o m hm
+
+theorem abort_outOk (s : State) (e : Option ErrKind) (o : OutOk s) : OutOk (abort s e) := by
+  cases e with
+  | none => exact o
+  | some k =>
+    intro m hm
+    simp only [abort, List.mem_append, List.mem_singleton] at hm
+    rcases hm with hm | rfl
+    · exact o m hm
+    · exact ⟨rfl, rfl, rfl⟩
+
+theorem emitFor_header (s : State) (nx : RoundSpec) : ∀ m ∈ emitFor s nx, HeaderOk s.sc m := by
+  intro m hm
+  simp only [emitFor, List.mem_append] at hm
+  rcases hm with hm | hm
+  · split at hm
+    · simp only [List.mem_singleton] at hm; subst hm; exact ⟨rfl, rfl, rfl⟩
+    · simp at hm
+  · split at hm
+    · simp only [List.mem_map] at hm
+      obtain ⟨id, _, rfl⟩ := hm
+      exact ⟨rfl, rfl, rfl⟩
+    · simp at hm
+
+theorem sendAll_outOk (s : State) (nx : RoundSpec) (o : OutOk s) : OutOk (sendAll s (emitFor s nx)) := by
+  have f := sendAll_frame s (emitFor s nx)
+  intro m hm
+  rw [f.2.2.2.2] at hm
+  rw [f.2.2.2.1]
+  rcases List.mem_append.mp hm with hm | hm
+  · exact o m hm
+  · exact emitFor_header s nx m hm
+
+/-- a state predicate that survives every elementary transition of the handler -/
+structure Preserved (P : State → Prop) : Prop where
+  sameLife : ∀ {s s' : State}, SameLife s s' → P s → P s'
+  abort : ∀ (s : State) (e : Option ErrKind), P s → P (abort s e)
+  send : ∀ (s : State) (nx : RoundSpec), P s → P (sendAll s (emitFor s nx))
+  output : ∀ (s : State) (v : Nat), P s → P { enter0 s with result := some v }
+
+def Step.st : Step → State
+  | .halt s => s
+  | .more s => s
+
+theorem finalizeStep_pres {P : State → Prop} (hp : Preserved P) (H : Bytes → Bytes) (s : State) (o : P s) :
+    P (finalizeStep H s).st := by
+  have o1 : P (fillBh H s) := hp.sameLife (fillBh_sameLife H s) o
+  unfold finalizeStep
+  simp only
+  split
+  · (simp only [Step.st]; exact o1)
+  · split
+    · (simp only [Step.st]; exact hp.abort _ _ o1)
+    · split
+      · (simp only [Step.st]; exact hp.abort _ _ o1)
+      · split
+        · (simp only [Step.st]; exact o1)
+        · (simp only [Step.st]; exact hp.abort _ _ (hp.sameLife (enter0_sameLife _) o1))
+      · split
+        · (simp only [Step.st]; exact o1)
+        · (simp only [Step.st]; exact hp.abort _ _ (hp.output _ _ o1))
+      · next i nx _ =>
+        have o3 := hp.send (fillBh H s) nx o1
+        split
+        · (simp only [Step.st]; exact o3)
+        · have o4 := hp.sameLife (enter_sameLife _ i nx) o3
+          split
+          · next s5 culprit hq =>
+            have := replayQueued_sameLife (enter (sendAll (fillBh H s) (emitFor (fillBh H s) nx)) i nx)
+            rw [hq] at this
+            simp only [Step.st]; exact hp.abort _ _ (hp.sameLife this o4)
+          · next s5 hq =>
+            have := replayQueued_sameLife (enter (sendAll (fillBh H s) (emitFor (fillBh H s) nx)) i nx)
+            rw [hq] at this
+            simp only [Step.st]; exact hp.sameLife this o4
+
+theorem finalize_pres {P : State → Prop} (hp : Preserved P) (H : Bytes → Bytes) (fuel : Nat) (s : State) (o : P s) :
+    P (finalize H fuel s) := by
+  induction fuel generalizing s with
+  | zero => exact o
+  | succ fuel ih =>
+    unfold finalize
+    have := finalizeStep_pres hp H s o
+    split
+    · next s' h => rw [h] at this; exact this
+    · next s' h => rw [h] at this; exact ih s' this
+
+theorem accept_pres {P : State → Prop} (hp : Preserved P) (H : Bytes → Bytes) (s : State) (m : Msg) (o : P s) :
+    P (accept H s m) := by
+  unfold accept
+  split
+  · exact o
+  · split
+    · exact hp.abort _ _ o
+    · have o1 := hp.sameLife (store_sameLife s m) o
+      unfold acceptStored
+      split
+      · exact o1
+      · split
+        · exact hp.abort _ _ o1
+        · next s2 hv =>
+          apply finalize_pres hp
+          split at hv
+          · exact hp.sameLife (verifyBroadcastMessage_sameLife _ _ _ hv) o1
+          · exact hp.sameLife (verifyMessage_sameLife _ _ _ hv) o1
+
+theorem stop_pres {P : State → Prop} (hp : Preserved P) (s : State) (o : P s) : P (stop s) := by
+  unfold stop
+  split
+  · exact o
+  · exact hp.abort _ _ o
+
+theorem outOk_preserved : Preserved OutOk where
+  sameLife := fun h o => o.of_sameLife h
+  abort := abort_outOk
+  send := sendAll_outOk
+  output := fun _ _ o => o
+
+/-- the script of a handler never changes -/
+theorem sc_preserved (sc : Script) : Preserved (fun s => s.sc = sc) where
+  sameLife := fun h o => h.2.2.2.1 ▸ o
+  abort := fun s e o => by cases e <;> simpa [Handler.abort] using o
+  send := fun s nx o => (sendAll_frame s (emitFor s nx)).2.2.2.1 ▸ o
+  output := fun _ _ o => o
+
+theorem init_outOk (H : Bytes → Bytes) (sc : Script) : OutOk (init H sc) := by
+  unfold init
+  apply finalize_pres outOk_preserved
+  intro m hm
+  simp at hm
+
+theorem init_sc (H : Bytes → Bytes) (sc : Script) : (init H sc).sc = sc := by
+  unfold init
+  exact finalize_pres (sc_preserved sc) H _ _ rfl
+
+theorem run_pres {P : State → Prop} (hp : Preserved P) (H : Bytes → Bytes) (sc : Script) (calls : List Call)
+    (h0 : P (init H sc)) : P (run H sc calls) := by
+  unfold run
+  generalize init H sc = s at h0
+  induction calls generalizing s with
+  | nil => exact h0
+  | cons c cs ih =>
+    apply ih
+    cases c <;> simp only [apply]
+    · exact accept_pres hp H s _ h0
+    · exact h0
+    · exact h0
+    · exact h0
+    · exact stop_pres hp s h0
+
+theorem run_sc (H : Bytes → Bytes) (sc : Script) (calls : List Call) : (run H sc calls).sc = sc :=
+  run_pres (sc_preserved sc) H sc calls (init_sc H sc)
+
+theorem run_outOk (H : Bytes → Bytes) (sc : Script) (calls : List Call) : OutOk (run H sc calls) :=
+  run_pres outOk_preserved H sc calls (init_outOk H sc)
 
 end Mps.Handler
